@@ -10,15 +10,27 @@ Lib/DecArith.vos Lib/DecArith.vok Lib/DecArith.required_vos: Lib/DecArith.v Lib/
 Lib/DecFacts.vo Lib/DecFacts.glob Lib/DecFacts.v.beautified Lib/DecFacts.required_vo: Lib/DecFacts.v Lib/Base.vo Lib/DecArith.vo
 Lib/DecFacts.vio: Lib/DecFacts.v Lib/Base.vio Lib/DecArith.vio
 Lib/DecFacts.vos Lib/DecFacts.vok Lib/DecFacts.required_vos: Lib/DecFacts.v Lib/Base.vos Lib/DecArith.vos
+Lib/DecFacts2.vo Lib/DecFacts2.glob Lib/DecFacts2.v.beautified Lib/DecFacts2.required_vo: Lib/DecFacts2.v Lib/Base.vo Lib/DecArith.vo Lib/DecFacts.vo
+Lib/DecFacts2.vio: Lib/DecFacts2.v Lib/Base.vio Lib/DecArith.vio Lib/DecFacts.vio
+Lib/DecFacts2.vos Lib/DecFacts2.vok Lib/DecFacts2.required_vos: Lib/DecFacts2.v Lib/Base.vos Lib/DecArith.vos Lib/DecFacts.vos
 Model/Market.vo Model/Market.glob Model/Market.v.beautified Model/Market.required_vo: Model/Market.v Lib/Base.vo
 Model/Market.vio: Model/Market.v Lib/Base.vio
 Model/Market.vos Model/Market.vok Model/Market.required_vos: Model/Market.v Lib/Base.vos
+Model/Pool.vo Model/Pool.glob Model/Pool.v.beautified Model/Pool.required_vo: Model/Pool.v Lib/Base.vo Lib/DecArith.vo
+Model/Pool.vio: Model/Pool.v Lib/Base.vio Lib/DecArith.vio
+Model/Pool.vos Model/Pool.vok Model/Pool.required_vos: Model/Pool.v Lib/Base.vos Lib/DecArith.vos
 Proofs/MarketProofs.vo Proofs/MarketProofs.glob Proofs/MarketProofs.v.beautified Proofs/MarketProofs.required_vo: Proofs/MarketProofs.v Lib/Base.vo Model/Market.vo
 Proofs/MarketProofs.vio: Proofs/MarketProofs.v Lib/Base.vio Model/Market.vio
 Proofs/MarketProofs.vos Proofs/MarketProofs.vok Proofs/MarketProofs.required_vos: Proofs/MarketProofs.v Lib/Base.vos Model/Market.vos
+Proofs/PoolProofs.vo Proofs/PoolProofs.glob Proofs/PoolProofs.v.beautified Proofs/PoolProofs.required_vo: Proofs/PoolProofs.v Lib/Base.vo Lib/DecArith.vo Lib/DecFacts.vo Lib/DecFacts2.vo Model/Pool.vo
+Proofs/PoolProofs.vio: Proofs/PoolProofs.v Lib/Base.vio Lib/DecArith.vio Lib/DecFacts.vio Lib/DecFacts2.vio Model/Pool.vio
+Proofs/PoolProofs.vos Proofs/PoolProofs.vok Proofs/PoolProofs.required_vos: Proofs/PoolProofs.v Lib/Base.vos Lib/DecArith.vos Lib/DecFacts.vos Lib/DecFacts2.vos Model/Pool.vos
+Properties/C06.vo Properties/C06.glob Properties/C06.v.beautified Properties/C06.required_vo: Properties/C06.v Lib/Base.vo Lib/DecArith.vo Lib/DecFacts.vo Model/Pool.vo Proofs/PoolProofs.vo
+Properties/C06.vio: Properties/C06.v Lib/Base.vio Lib/DecArith.vio Lib/DecFacts.vio Model/Pool.vio Proofs/PoolProofs.vio
+Properties/C06.vos Properties/C06.vok Properties/C06.required_vos: Properties/C06.v Lib/Base.vos Lib/DecArith.vos Lib/DecFacts.vos Model/Pool.vos Proofs/PoolProofs.vos
 Properties/C17.vo Properties/C17.glob Properties/C17.v.beautified Properties/C17.required_vo: Properties/C17.v Lib/Base.vo Model/Market.vo Proofs/MarketProofs.vo
 Properties/C17.vio: Properties/C17.v Lib/Base.vio Model/Market.vio Proofs/MarketProofs.vio
 Properties/C17.vos Properties/C17.vok Properties/C17.required_vos: Properties/C17.v Lib/Base.vos Model/Market.vos Proofs/MarketProofs.vos
-Extract/Extract.vo Extract/Extract.glob Extract/Extract.v.beautified Extract/Extract.required_vo: Extract/Extract.v Lib/Base.vo Lib/DecArith.vo Model/Market.vo
-Extract/Extract.vio: Extract/Extract.v Lib/Base.vio Lib/DecArith.vio Model/Market.vio
-Extract/Extract.vos Extract/Extract.vok Extract/Extract.required_vos: Extract/Extract.v Lib/Base.vos Lib/DecArith.vos Model/Market.vos
+Extract/Extract.vo Extract/Extract.glob Extract/Extract.v.beautified Extract/Extract.required_vo: Extract/Extract.v Lib/Base.vo Lib/DecArith.vo Model/Market.vo Model/Pool.vo
+Extract/Extract.vio: Extract/Extract.v Lib/Base.vio Lib/DecArith.vio Model/Market.vio Model/Pool.vio
+Extract/Extract.vos Extract/Extract.vok Extract/Extract.required_vos: Extract/Extract.v Lib/Base.vos Lib/DecArith.vos Model/Market.vos Model/Pool.vos
